@@ -29,9 +29,21 @@ def Rng.draw (r : Rng) (n : Nat) : Rng := { r with pos := r.pos + n }
 
 abbrev V2 := Rat × Rat
 
+/-- the physical parameters that can be changed on an existing layer through their setters -/
+structure Par where
+  cn2 : Rat
+  L0 : Rat
+deriving DecidableEq, Repr
+
 inductive Op where
   | evolve (t : Rat)
   | reset (indep : Bool)
+  /-- `layer.Cn_squared = c` (also what `MultiLayerAtmosphere.Cn_squared = …` does to each layer) -/
+  | setCn2 (c : Rat)
+  /-- `layer.L0 = l` / `layer.outer_scale = l` -/
+  | setL0 (l : Rat)
+  /-- `layer.velocity = v` -/
+  | setVel (v : V2)
 deriving DecidableEq, Repr
 
 /-! ## Finite layer -/
@@ -40,6 +52,10 @@ structure FinL where
   nx : Nat
   ny : Nat
   vel : V2
+  /-- current `Cn_squared`, `L0` -/
+  par : Par
+  /-- the parameters `_noise` was made with -/
+  noisePar : Par
   /-- `_original_rng` -/
   orig : Rng
   /-- `rng` -/
@@ -55,7 +71,7 @@ both Fourier grids, each of the size of the input grid -/
 def FinL.draws (L : FinL) : Nat := 4 * (L.nx * L.ny)
 
 /-- `_make_noise` -/
-def FinL.makeNoise (L : FinL) : FinL := { L with noise := L.rng, rng := L.rng.draw L.draws }
+def FinL.makeNoise (L : FinL) : FinL := { L with noise := L.rng, noisePar := L.par, rng := L.rng.draw L.draws }
 
 /-- the two branches on `make_independent_realization` -/
 def FinL.pickRng (indep : Bool) (L : FinL) : FinL :=
@@ -69,11 +85,18 @@ def FinL.reset (indep : Bool) (L : FinL) : FinL :=
 def FinL.resetOld (indep : Bool) (L : FinL) : FinL := (L.pickRng indep).makeNoise
 
 /-- a layer whose original generator is in state `o` (`__init__` ends with `reset()`) -/
-def FinL.fresh (nx ny : Nat) (vel : V2) (o : Rng) : FinL :=
-  FinL.reset false { nx := nx, ny := ny, vel := vel, orig := o, rng := o, noise := o, center := (0, 0), t := 0 }
+def FinL.fresh (nx ny : Nat) (vel : V2) (par : Par) (o : Rng) : FinL :=
+  FinL.reset false { nx := nx, ny := ny, vel := vel, par := par, noisePar := par, orig := o, rng := o, noise := o,
+                     center := (0, 0), t := 0 }
 
-/-- `FiniteAtmosphericLayer(grid, …, velocity, seed=seed)` -/
-def FinL.new (nx ny : Nat) (vel : V2) (seed : Nat) : FinL := FinL.fresh nx ny vel ⟨seed, 0⟩
+/-- `FiniteAtmosphericLayer(grid, Cn_squared, L0, velocity, seed=seed)` -/
+def FinL.new (nx ny : Nat) (vel : V2) (par : Par) (seed : Nat) : FinL := FinL.fresh nx ny vel par ⟨seed, 0⟩
+
+/-- the parameter setters.  Only the stored parameter is modelled: the lazily re-drawn noise and the cached screen
+of a *running* layer are not (the correspondence only runs histories in which a setter is followed by `reset`). -/
+def FinL.setCn2 (c : Rat) (L : FinL) : FinL := { L with par := { L.par with cn2 := c } }
+def FinL.setL0 (l : Rat) (L : FinL) : FinL := { L with par := { L.par with L0 := l } }
+def FinL.setVel (v : V2) (L : FinL) : FinL := { L with vel := v }
 
 /-- `evolve_until(t)` (repaired: stores `t`) -/
 def FinL.evolve (t : Rat) (L : FinL) : FinL :=
@@ -85,33 +108,43 @@ def FinL.evolveOld (t : Rat) (L : FinL) : FinL :=
 def FinL.step (L : FinL) : Op → FinL
   | .evolve t => L.evolve t
   | .reset b => L.reset b
+  | .setCn2 c => L.setCn2 c
+  | .setL0 l => L.setL0 l
+  | .setVel v => L.setVel v
 
 def FinL.stepOld (L : FinL) : Op → FinL
   | .evolve t => L.evolveOld t
   | .reset b => L.resetOld b
+  | .setCn2 c => L.setCn2 c
+  | .setL0 l => L.setL0 l
+  | .setVel v => L.setVel v
 
 def FinL.run (L : FinL) (h : List Op) : FinL := h.foldl FinL.step L
 
-/-- What `phase_for(1)` is a function of: the noise realisation and the displacement. -/
-def FinL.screen (L : FinL) : Rng × V2 := (L.noise, L.center)
+/-- What `phase_for(1)` is a function of: the noise realisation (generator state and the parameters it was
+made with) and the displacement. -/
+def FinL.screen (L : FinL) : Rng × Par × V2 := (L.noise, L.noisePar, L.center)
 
 /-- the screens read after each operation of a history -/
-def FinL.screens (L : FinL) : List Op → List (Rng × V2)
+def FinL.screens (L : FinL) : List Op → List (Rng × Par × V2)
   | [] => []
   | o :: h => (L.step o).screen :: (L.step o).screens h
 
-def FinL.screensOld (L : FinL) : List Op → List (Rng × V2)
+def FinL.screensOld (L : FinL) : List Op → List (Rng × Par × V2)
   | [] => []
   | o :: h => (L.stepOld o).screen :: (L.stepOld o).screensOld h
 
 /-! ## Infinite layer -/
 
 /-- A symbolic sample: drawn in the realisation that started at stream position `start`, after the
-extrusion history coded by `hist` (0 = the initial screen), element `j` of that draw. -/
+extrusion history coded by `hist` (0 = the initial screen), element `j` of that draw, with the layer
+parameters `par` (the initial screen and every new row/column use the *current* `Cn_squared` / `L0`). -/
 structure Sym where
   start : Nat
   hist : Nat
   j : Nat
+  /-- the layer parameters when the sample was generated -/
+  par : Par
 deriving DecidableEq, Repr
 
 def _root_.HcipyVerif.Shift.Where.code : Where → Nat
@@ -128,6 +161,7 @@ structure InfL where
   ny : Nat
   delta : V2
   vel : V2
+  par : Par
   orig : Rng
   rng : Rng
   center : V2
@@ -145,7 +179,7 @@ deriving DecidableEq, Repr
 /-- `_make_initial_phase_screen`: a temporary finite layer (oversampling 16) draws the screen. -/
 def InfL.initScreen (L : InfL) : InfL :=
   { L with start := L.rng.pos, hist := 0,
-           screen := (List.range (L.nx * L.ny)).map (fun k => ⟨L.rng.pos, 0, k⟩),
+           screen := (List.range (L.nx * L.ny)).map (fun k => ⟨L.rng.pos, 0, k, L.par⟩),
            rng := L.rng.draw (4 * (L.nx * L.ny)) }
 
 def InfL.pickRng (indep : Bool) (L : InfL) : InfL :=
@@ -156,19 +190,25 @@ def InfL.reset (indep : Bool) (L : InfL) : InfL :=
   { (L.pickRng indep).initScreen with center := (0, 0), t := 0, sub := (0, 0) }
 
 /-- a layer whose `_original_rng` is in state `o` -/
-def InfL.fresh (nx ny : Nat) (delta vel : V2) (o : Rng) : InfL :=
-  InfL.reset false { nx := nx, ny := ny, delta := delta, vel := vel, orig := o, rng := o,
+def InfL.fresh (nx ny : Nat) (delta vel : V2) (par : Par) (o : Rng) : InfL :=
+  InfL.reset false { nx := nx, ny := ny, delta := delta, vel := vel, par := par, orig := o, rng := o,
                      center := (0, 0), t := 0, start := 0, hist := 0, screen := [], sub := (0, 0) }
 
 /-- `InfiniteAtmosphericLayer(grid, …, seed=seed)`: the stencils consume `nx + ny` numbers first -/
-def InfL.new (nx ny : Nat) (delta vel : V2) (seed : Nat) : InfL :=
-  InfL.fresh nx ny delta vel ((⟨seed, 0⟩ : Rng).draw (nx + ny))
+def InfL.new (nx ny : Nat) (delta vel : V2) (par : Par) (seed : Nat) : InfL :=
+  InfL.fresh nx ny delta vel par ((⟨seed, 0⟩ : Rng).draw (nx + ny))
+
+/-- the setters: `Cn_squared` is only stored (the extrusion multiplies the innovation by `sqrt(Cn_squared)` at the
+time of the extrusion, the matrices are built for unit strength); `L0` rebuilds the matrices, the stencils stay. -/
+def InfL.setCn2 (c : Rat) (L : InfL) : InfL := { L with par := { L.par with cn2 := c } }
+def InfL.setL0 (l : Rat) (L : InfL) : InfL := { L with par := { L.par with L0 := l } }
+def InfL.setVel (v : V2) (L : InfL) : InfL := { L with vel := v }
 
 /-- one `_extrude(where)`: draws `ny` (horizontal) or `nx` numbers for the new column/row -/
 def InfL.extrude1 (w : Where) (L : InfL) : InfL :=
   let n := if w.horizontal then L.ny else L.nx
   let h := L.hist * 5 + w.code
-  let new := (List.range n).map (fun j => (⟨L.start, h, j⟩ : Sym))
+  let new := (List.range n).map (fun j => (⟨L.start, h, j, L.par⟩ : Sym))
   { L with hist := h, rng := L.rng.draw n, screen := Shift.extrude w L.nx L.ny new L.screen }
 
 def InfL.extrudeN (w : Where) : Nat → InfL → InfL
@@ -205,6 +245,9 @@ def InfL.evolveOld (t : Rat) (L : InfL) : Option InfL :=
 def InfL.step (L : InfL) : Op → InfL
   | .evolve t => (L.evolve t).getD L
   | .reset b => L.reset b
+  | .setCn2 c => L.setCn2 c
+  | .setL0 l => L.setL0 l
+  | .setVel v => L.setVel v
 
 def InfL.run (L : InfL) (h : List Op) : InfL := h.foldl InfL.step L
 
